@@ -3,11 +3,11 @@ from .. import terms as T
 from ..lib import summarise, heap_writes, V, A, normal, raising, cond_str, no_inline, writers_of_attr
 from ..symex import Valuation, default_policy
 from ..terms import fmt, ZERO, num
-from .sizers import sizing_paths, EQUITY, call_is
+from .sizers import sizing_paths, EQUITY, call_is, loop_asset_weight, is_empty_weights_path
 
 CN = 'DollarWeightedCashBufferedOrderSizer'
 NEG = ('call', ('ext', 'ANY'), (('comp', 'list', ('not', ('cmp', '<=', num(0), ('bv', 0))), (((('bv', 0),), ('call', ('meth', 'values'), (V('weights'),), ()), ()),)),), ())
-SUMW = ('call', ('ext', 'SUM'), (('comp', 'gen', ('bv', 0), (((('bv', 0),), ('call', ('meth', 'values'), (V('weights'),), ()), ()),)),), ())
+SUMW = ('call', ('ext', 'SUM'), (('call', ('meth', 'values'), (V('weights'),), ()),), ())
 
 
 def is_neg_test(c):
@@ -21,11 +21,11 @@ def is_neg_test(c):
 
 
 def check(ctx):
-    s1_formula(ctx)
-    s2_guards(ctx)
+    ctx.sub(s1_formula)
+    ctx.sub(s2_guards)
     # the fee estimate is the configured fee model applied to the share: the model must not depend on the (placeholder) quantity
     from . import c05
-    c05.s4_fee_models(ctx)
+    ctx.sub(c05.s4_fee_models)
 
 
 def s1_formula(ctx):
@@ -34,8 +34,7 @@ def s1_formula(ctx):
     ctx.floor('C10.S1', 'sizing paths of the long-only sizer', len(sp), 2)
     for s in sp:
         p, lp = s['path'], s['loop']
-        el = ('elem', lp.iter, lp.id)
-        asset, w = ('sub', el, num(0)), ('sub', el, num(1))
+        asset, w, wsrc = loop_asset_weight(lp)
         alloc = T.t_mul(T.t_mul(EQUITY, T.t_sub(num(1), A('self', 'cash_buffer_percentage'))), w)
         nb = 0
         for b in s['bodies']:
@@ -92,10 +91,10 @@ def s1_formula(ctx):
             ctx.require(ok, 'C10.S1', 'weights are normalised by their sum', ctx.fn(qn).site(), fmt(v)[:160], key='C10.S1|normalise')
     # __call__ sizes the normalised weights
     for s in sp:
-        it = s['loop'].iter
-        src = it[2][0] if call_is(it, 'SORTED') else it
-        ok = src[0] == 'call' and src[1] == ('meth', 'items')
-        ctx.require(ok, 'C10.S1', 'the sizing loop runs over the normalised weights', s['loop'].site, fmt(it)[:100], key='C10.S1|loop-source')
+        asset, w, wsrc = loop_asset_weight(s['loop'])
+        # the container iterated is what _normalise_weights returned on this path: the raw weights (~0 sum) or the normalised comprehension
+        ok = wsrc == V('weights') or (wsrc[0] == 'comp' and wsrc[1] == 'dict')
+        ctx.require(ok, 'C10.S1', 'the sizing loop runs over the normalised weights', s['loop'].site, fmt(wsrc)[:100], key='C10.S1|loop-source')
     ws = writers_of_attr(ctx.M, 'cash_buffer_percentage', owner=CN)
     ws = [w for w in ws if w.fn.cls is not None and w.fn.cls.name == CN]
     ctx.require(all(w.fn.name == '__init__' for w in ws) and ws, 'C10.S2', 'the buffer is set only by the constructor, through its validator', ws[0].where if ws else None,
@@ -136,7 +135,7 @@ def s2_guards(ctx):
     ps2, sp = sizing_paths(ctx, CN)
     for p in ps2:
         if p.outcome == 'return' and p.value == ('dict', ()) and not any(e.kind == 'loop' for e in p.events):
-            ok = any(fmt(c) in ('LEN(weights) == 0', '0 == LEN(weights)') and v for c, v, _ in p.conds) and len(p.conds) == 1
+            ok = is_empty_weights_path(p) and len(p.conds) == 1
             ctx.require(ok, 'C10.S2', 'an empty target is returned only for an empty weight dict', ctx.fn(CN + '.__call__').site(), cond_str(p)[:120], key='C10.S2|empty-only')
     for s in sp:
         p = s['path']
